@@ -107,7 +107,8 @@ func MonC01() *Mon {
 			}
 			w := n.W
 			for j, cp := range n.D.CommitPayloads {
-				if cp != nil && cp.ViewNumber() == n.D.ViewNumber && b.Verify(n.D.Validators[j], cp.GetCommit().Signature()) != nil && early[n][cp.Hash()] {
+				// D1 is the backup's call site (onPrepareRequest); the primary re-validates early commits when it proposes
+				if cp != nil && cp.ViewNumber() == n.D.ViewNumber && b.Verify(n.D.Validators[j], cp.GetCommit().Signature()) != nil && early[n][cp.Hash()] && !n.D.IsPrimary() {
 					tainted[b.Idx] = true
 				}
 			}
@@ -203,8 +204,8 @@ func MonC02() *Mon {
 			}
 			if valid < refM(len(d.Validators)) {
 				key := "commit-quorum"
-				if invalidTimely == 0 && valid+invalidEarly >= refM(len(d.Validators)) {
-					key = "D1-early-commit-not-revalidated"
+				if invalidTimely == 0 && valid+invalidEarly >= refM(len(d.Validators)) && !d.IsPrimary() {
+					key = "D1-early-commit-not-revalidated" // the backup's call site only: the primary re-validates when it proposes
 				}
 				w.Fail("C02", fmt.Sprintf("node %d height %d view %d: ProcessBlock called holding only %d valid current-view commits (M=%d; %d invalid held that arrived before the proposal, %d invalid that arrived after)", n.ID, b.Idx, v, valid, refM(len(d.Validators)), invalidEarly, invalidTimely), key)
 			}
@@ -242,7 +243,7 @@ func MonC02() *Mon {
 			}
 			if valid < refM(len(d.Validators)) {
 				key := "precommit-quorum"
-				if invalidTimely == 0 && valid+invalidEarly >= refM(len(d.Validators)) {
+				if invalidTimely == 0 && valid+invalidEarly >= refM(len(d.Validators)) && !d.IsPrimary() {
 					key = "D1-early-precommit-not-revalidated"
 				}
 				w.Fail("C02", fmt.Sprintf("node %d height %d view %d: ProcessPreBlock called holding only %d valid current-view pre-commits (M=%d; %d invalid early, %d invalid timely)", n.ID, pb.Idx, v, valid, refM(len(d.Validators)), invalidEarly, invalidTimely), key)
